@@ -1,0 +1,207 @@
+//! C19 — wrappers around `ip::Config::{is_valid_send_addr, is_valid_default_addr}`
+//! (`socket/transports/ip.rs`) and a `TransportsSender` whose IP sockets come from the real
+//! `IpTransports::bind` (`socket/transports.rs`, `socket/transports/ip.rs`).
+//!
+//! [`chosen`] is called by `TransportsSender::poll_send` right before it hands a datagram
+//! to an IP socket: it records that socket's configuration.
+use std::{
+    cell::RefCell,
+    io,
+    net::{IpAddr, Ipv4Addr, Ipv6Addr, SocketAddr},
+    pin::Pin,
+    sync::{Arc, Mutex},
+    task::{Context, Poll},
+};
+
+use ipnet::{Ipv4Net, Ipv6Net};
+use iroh_base::CustomAddr;
+
+use crate::{
+    metrics::EndpointMetrics,
+    socket::transports::{
+        FourTuple, IpConfig, Transmit, TransportsSender, custom::CustomSender,
+    },
+};
+
+thread_local! {
+    static CHOSEN: RefCell<Vec<(IpConfig, bool)>> = const { RefCell::new(Vec::new()) };
+}
+
+/// Called by `TransportsSender::poll_send` (IP branches) with the chosen sender's config.
+pub(crate) fn chosen(config: IpConfig, via_default: bool) {
+    CHOSEN.with(|c| c.borrow_mut().push((config, via_default)));
+}
+
+/// One IP bind request.  `addr` holds the address with its host bits (as `Ipv4Net::new`
+/// keeps it); IPv4 addresses are the low 32 bits.
+#[derive(Debug, Clone, Copy, PartialEq, Eq)]
+pub struct Cfg {
+    pub v6: bool,
+    pub addr: u128,
+    pub prefix: u8,
+    pub scope: u32,
+    pub port: u16,
+    pub is_required: bool,
+    pub is_default: bool,
+}
+
+impl Cfg {
+    /// `None` when the prefix length is invalid for the family.
+    fn config(&self) -> Option<IpConfig> {
+        Some(if self.v6 {
+            IpConfig::V6 {
+                ip_net: Ipv6Net::new(Ipv6Addr::from(self.addr), self.prefix).ok()?,
+                scope_id: self.scope,
+                port: self.port,
+                is_required: self.is_required,
+                is_default: self.is_default,
+            }
+        } else {
+            IpConfig::V4 {
+                ip_net: Ipv4Net::new(Ipv4Addr::from(self.addr as u32), self.prefix).ok()?,
+                port: self.port,
+                is_required: self.is_required,
+                is_default: self.is_default,
+            }
+        })
+    }
+}
+
+/// `(is_valid_send_addr, is_valid_default_addr, prefix_len)` of the config; `None`: invalid prefix.
+pub fn valid(cfg: &Cfg, src: Option<IpAddr>, dst: SocketAddr) -> Option<(bool, bool, u8)> {
+    let c = cfg.config()?;
+    Some((c.is_valid_send_addr(src, dst), c.is_valid_default_addr(src, dst), c.prefix_len()))
+}
+
+fn port_of(c: &IpConfig) -> u16 {
+    match c {
+        IpConfig::V4 { port, .. } => *port,
+        IpConfig::V6 { port, .. } => *port,
+    }
+}
+
+/// What a custom sender does when polled: 0 `Ready(Ok)`, 1 `Ready(Err)`, 2 `Pending`.
+#[derive(Debug)]
+struct RecSender {
+    index: usize,
+    accepts: Vec<u64>,
+    behaviour: u8,
+    log: Arc<Mutex<Vec<(usize, CustomAddr, Option<CustomAddr>)>>>,
+}
+
+impl CustomSender for RecSender {
+    fn is_valid_send_addr(&self, addr: &CustomAddr) -> bool {
+        self.accepts.contains(&addr.id())
+    }
+
+    fn poll_send(
+        &self,
+        _cx: &mut Context,
+        dst: &CustomAddr,
+        src: Option<&CustomAddr>,
+        _transmit: &Transmit<'_>,
+    ) -> Poll<io::Result<()>> {
+        self.log.lock().unwrap().push((self.index, dst.clone(), src.cloned()));
+        match self.behaviour {
+            0 => Poll::Ready(Ok(())),
+            1 => Poll::Ready(Err(io::Error::other("verif: custom send error"))),
+            _ => Poll::Pending,
+        }
+    }
+}
+
+/// The stored layout after `IpTransports::bind`: ports of the v4 sockets in stored order,
+/// default index, the same for v6.
+pub type Layout = (Vec<u16>, Option<usize>, Vec<u16>, Option<usize>);
+
+pub struct Sender {
+    inner: TransportsSender,
+    log: Arc<Mutex<Vec<(usize, CustomAddr, Option<CustomAddr>)>>>,
+}
+
+/// Result of one `poll_send`: 0 `Ready(Ok)`, 1 `Ready(Err)`, 2 `Pending`.
+fn code(p: Poll<io::Result<()>>) -> u8 {
+    match p {
+        Poll::Ready(Ok(())) => 0,
+        Poll::Ready(Err(_)) => 1,
+        Poll::Pending => 2,
+    }
+}
+
+impl Sender {
+    /// Binds `cfgs` (all prefixes must be valid) through `IpTransports::bind` and attaches
+    /// custom senders `(accepted transport ids, behaviour)`.  Must run inside a tokio runtime.
+    /// `Err((kind, message))`: kind 1 = "single default" error, 2 = any other (bind) error.
+    pub fn new(cfgs: &[Cfg], customs: &[(Vec<u64>, u8)]) -> Result<(Self, Layout), (u8, String)> {
+        let configs: Vec<IpConfig> = cfgs.iter().map(|c| c.config().expect("valid prefix")).collect();
+        let log = Arc::new(Mutex::new(Vec::new()));
+        let custom: Vec<Arc<dyn CustomSender>> = customs
+            .iter()
+            .enumerate()
+            .map(|(index, (accepts, behaviour))| {
+                Arc::new(RecSender {
+                    index,
+                    accepts: accepts.clone(),
+                    behaviour: *behaviour,
+                    log: log.clone(),
+                }) as Arc<dyn CustomSender>
+            })
+            .collect();
+        let metrics = EndpointMetrics::default();
+        match TransportsSender::verif_new(configs, custom, &metrics) {
+            Ok((inner, (v4, d4, v6, d6))) => Ok((
+                Self { inner, log },
+                (v4.iter().map(port_of).collect(), d4, v6.iter().map(port_of).collect(), d6),
+            )),
+            Err(err) => {
+                let msg = err.to_string();
+                let kind = if msg.contains("can only have a single") { 1 } else { 2 };
+                Err((kind, msg))
+            }
+        }
+    }
+
+    /// `poll_send` of an IP four-tuple: the port of the socket it was handed to and whether
+    /// that was through the default-route rule (`None`: handed to no socket), and the result code.
+    pub fn send_ip(&mut self, dst: SocketAddr, src: Option<IpAddr>) -> (Option<(u16, bool)>, u8) {
+        CHOSEN.with(|c| c.borrow_mut().clear());
+        let path = FourTuple::Ip { remote: dst, local: src };
+        let res = self.poll(&path);
+        let chosen = CHOSEN.with(|c| std::mem::take(&mut *c.borrow_mut()));
+        assert!(chosen.len() <= 1, "handed to more than one socket");
+        (chosen.first().map(|(c, d)| (port_of(c), *d)), code(res))
+    }
+
+    /// `poll_send` of a custom four-tuple: `(sender index, dst, src)` of every custom
+    /// sender polled, in order, and the result code.
+    #[allow(clippy::type_complexity)]
+    pub fn send_custom(
+        &mut self,
+        remote: CustomAddr,
+        local: Option<CustomAddr>,
+    ) -> (Vec<(usize, CustomAddr, Option<CustomAddr>)>, u8) {
+        self.log.lock().unwrap().clear();
+        let path = FourTuple::Custom { remote, local };
+        let res = self.poll(&path);
+        let log = std::mem::take(&mut *self.log.lock().unwrap());
+        (log, code(res))
+    }
+
+    /// `poll_send` of a relay four-tuple (this sender has no relay transports).
+    pub fn send_relay(&mut self, key: u64) -> u8 {
+        let (url, endpoint_id) = super::c18::relay_key(key);
+        let path = FourTuple::Relay { url, endpoint_id };
+        code(self.poll(&path))
+    }
+
+    fn poll(&mut self, path: &FourTuple) -> Poll<io::Result<()>> {
+        let waker = std::task::Waker::noop();
+        let mut cx = Context::from_waker(waker);
+        let transmit = Transmit {
+            ecn: None,
+            contents: b"c19",
+            segment_size: None,
+        };
+        Pin::new(&mut self.inner).poll_send(&mut cx, path, &transmit)
+    }
+}
